@@ -54,4 +54,9 @@ META = {
   "text": "Configurations with overlapping/nested/reversed ranges and mixed-acceptance multi-key commands are generated deliberately; the reference model restates the property (union of ranges, byte-prefix rules, projection of DEL/UNLINK/MSET) independently of the tool's trie/range-list/keyspec code. Exploration level over configurations x commands.",
   "note": "Commands are drawn from the reference key-position table only (the property quantifies over the supported key-addressed command set); empty prefixes are not generated (a YAML list entry \"\" is not a meaningful configuration).",
  },
+ "C05": {
+  "technique": "stateful property-based testing (rapid, generated operation sequences interpreted against both cache backends); oracle = bytes as a pure function of (lineage, offset) checked on every byte any reader returns, plus API invariants after every step",
+  "text": "Operation sequences (writers, readers, rotation, collection, resets, reopen) are generated and shrunk as plain data; because every byte is a function of its offset no stored model is needed and readers can be checked at any time. Exploration level; the sequential mode owns the order of operations, not the goroutine interleaving inside the cache.",
+  "note": "Sequential driver (one operation at a time; the cache's own writer/reader goroutines run concurrently underneath). A live reader that does not catch up within 10 s is inconclusive (exit 2), not a violation.",
+ },
 }
